@@ -342,11 +342,16 @@ class Check:
         cov["known_findings_hit"] = self.known_hits
         if not cov.get("samples"):
             cov["samples"] = ["(none recorded)"]
+        try:
+            cov["repo_head"] = subprocess.run(["git", "-C", REPO, "rev-parse", "--short=8", "HEAD"], stdout=subprocess.PIPE, text=True).stdout.strip()
+        except Exception:
+            pass
         ev = dict(property_id=self.pid, tier=self.tier, seed=self.seed, level=self.level, coverage=cov,
                   assumptions=self.assumptions, wall_s=round(time.time() - self.t0, 2),
                   violations=self.violations)
         # evidence describes /repo only: runs against another checkout (mutant evaluation) write theirs to scratch
         evdir = os.path.join(VERIF, "evidence") if os.path.abspath(REPO) == "/repo" else "/var/tmp/verif-scratch/evidence-other"
+        evdir = os.environ.get("VERIF_EVIDENCE_DIR", evdir)   # extra seed sweeps keep the committed evidence untouched
         os.makedirs(evdir, exist_ok=True)
         with open(os.path.join(evdir, self.pid + ".json"), "w") as f:
             json.dump(ev, f, indent=1, default=str)
